@@ -268,6 +268,17 @@ def _run(case, res, tf):
         if idents[slot] is None:
             # a history-dependent stream: one value per time at which it is produced
             k_ = lk(i, pn)
+            if v is _OUT:
+                # the read raised: what was produced is outside the bounds of this Number
+                sk_ = ("num" if pn == 0 else "dyn") if i < 2 else ("dyn" if pn == 0 else "bnum")
+                if last_time.get(k_) == t and k_ in last_val and _acceptable(sk_, last_val[k_]):
+                    res.fail("C19.repeated_read_differs", f"stream generator behind inst{i}.{name}: the read at time {t} raised, "
+                                                          f"the value produced at that time is {last_val[k_]!r}, which this parameter accepts")
+                if last_time.get(k_) != t:
+                    last_val.pop(k_, None)        # a new value was produced and refused: not known here
+                last_time[k_] = t
+                st_["times_seen"].append(t)
+                return v
             if last_time.get(k_) == t and k_ in last_val:
                 if v != last_val[k_]:
                     res.fail("C19.repeated_read_differs", f"stream generator behind inst{i}.{name}: read {v!r} at time {t}, "
